@@ -8,6 +8,10 @@ pub const F64_NULL: u64 = 0x7ffa_aaaa_aaaa_aaaa; // reserved: not a value
 pub const EDGE_LENS: [usize; 20] = [1, 2, 3, 7, 8, 9, 10, 15, 16, 17, 31, 33, 63, 64, 65, 66, 127, 128, 129, 200];
 
 pub fn pick_len(r: &mut Rng) -> usize {
+    // now and then a column longer than the default batch size (1024): streamed decode
+    if r.chance(1, 30) {
+        return *r.pick(&[1023usize, 1024, 1025, 2047, 2049]);
+    }
     match r.below(10) {
         0..=5 => *r.pick(&EDGE_LENS),
         6..=8 => r.usize(1, 80),
@@ -290,6 +294,25 @@ pub fn gen_strings(r: &mut Rng, class: &str, n: usize) -> Vec<String> {
             for i in (1..v.len()).rev() {
                 let j = r.below(i as u64 + 1) as usize;
                 v.swap(i, j);
+            }
+            v
+        }
+        "dict-65536" => {
+            // the u16 / u32 dictionary index boundary: 65535 .. 65537 distinct values in more than
+            // twice as many rows (beyond the model's reach: oracle only)
+            let k = *r.pick(&[65_535usize, 65_536, 65_537]);
+            let rows = 2 * k + 2 + r.usize(0, 5);
+            let mut v: Vec<String> = (0..k).map(|i| format!("{:x}", i.wrapping_mul(2_654_435_761) & 0xffff_ffff ^ (i << 7))).collect();
+            let mut seen = std::collections::HashSet::new();
+            for (i, s) in v.iter_mut().enumerate() {
+                if !seen.insert(s.clone()) {
+                    *s = format!("d{}", i);
+                    seen.insert(s.clone());
+                }
+            }
+            let d = v.clone();
+            while v.len() < rows {
+                v.push(d[r.below(d.len() as u64) as usize].clone());
             }
             v
         }
